@@ -579,7 +579,7 @@ def recv_int(named, ptr):
         return "len(%s)" % r
     if isinstance(u, Struct) and isinstance(unalias(named.under), Struct):
         for f in u.fields:
-            if not f.embedded and isinstance(f.ty, Basic) and f.ty.name in BASIC_INT + BASIC_UINT:
+            if not f.embedded and f.name != "_" and isinstance(f.ty, Basic) and f.ty.name in BASIC_INT + BASIC_UINT:
                 return "int(r.%s)" % f.name
     return None
 
@@ -591,7 +591,7 @@ def recv_set(named):
         return "*r = %s(x)" % named.name
     if isinstance(u, Struct) and isinstance(unalias(named.under), Struct):
         for f in u.fields:
-            if not f.embedded and isinstance(f.ty, Basic) and f.ty.name in BASIC_INT + BASIC_UINT:
+            if not f.embedded and f.name != "_" and isinstance(f.ty, Basic) and f.ty.name in BASIC_INT + BASIC_UINT:
                 return "r.%s = %s(x)" % (f.name, f.ty.name)
     return None
 
